@@ -10,9 +10,9 @@ pub struct Minimised {
     pub steps_accepted: usize,
 }
 
-fn still_fails(w: &World, signature: &str, execs: &mut usize) -> bool {
+fn still_fails(w: &World, signature: &str, focus: Option<&str>, execs: &mut usize) -> bool {
     *execs += 1;
-    match crate::check_world(w).0 {
+    match crate::check_world(w, focus).0 {
         Verdict::Violation(v) => v.signature == signature,
         _ => false,
     }
@@ -45,14 +45,14 @@ fn chunks(text: &str, starts: Option<&Vec<usize>>) -> Vec<(usize, usize)> {
     out
 }
 
-pub fn minimise(w0: &World, signature: &str, max_execs: usize) -> Minimised {
+pub fn minimise(w0: &World, signature: &str, focus: Option<&str>, max_execs: usize) -> Minimised {
     let mut w = w0.clone();
     let mut execs = 0usize;
     let mut accepted = 0usize;
     macro_rules! try_cand {
         ($cand:expr) => {{
             let cand: World = $cand;
-            if execs < max_execs && still_fails(&cand, signature, &mut execs) {
+            if execs < max_execs && still_fails(&cand, signature, focus, &mut execs) {
                 w = cand;
                 accepted += 1;
                 true
